@@ -81,8 +81,20 @@ def offline_recheck(run, samples, spec_by_unit):
     run.extra["offline_recheck"] = {"samples": n, "disagreements": bad}
 
 
+def phf_units(r, n, spec_by_unit, prefix="P"):
+    """Field-less use_phf enums of the same domain (compiled against strum built with the phf feature)."""
+    units = []
+    for i in range(n):
+        s = strgen.build(r, "%s%d" % (prefix, i), ["EnumString"], fieldless=True, naming_bias=0.75, max_n=8, capture_types=["String", "BoxStr"])
+        s.use_phf = True
+        u = shards.Unit("u_" + s.name.lower(), glue(s), meta={"enum_src": s.render()}, sig="phf," + s.signature(), head=strgen.CAPTURE_HEAD)
+        units.append(u)
+        spec_by_unit[u.name] = s
+    return units
+
+
 def check(run):
-    deps, vmon = setup(run)
+    deps, vmon = setup(run, cfgs=("std", "phf"))
     thorough = run.tier == "thorough"
     specs = systematic(0)
     r = gen.rng_for(run.seed, "c01")
@@ -97,6 +109,9 @@ def check(run):
         spec_by_unit[u.name] = s
     run.rule = RULE
     samples = standard_flow(run, units, deps["std"], vmon, profiles=("fast",), tag="c01")
+    punits = phf_units(r, 300 if thorough else 60, spec_by_unit)
+    samples.update(standard_flow(run, punits, deps["phf"], vmon, profiles=("fast",), tag="c01p"))
+    units = units + punits
     offline_recheck(run, samples, spec_by_unit)
     pick_samples(run, samples, {u.name: u for u in units})
     run.extra["programs"] = len(units)
